@@ -325,6 +325,7 @@ int main(int argc, char **argv) {
                     }
                     if (!v_thorough() && !in_quick) continue;
                     esx_run(&model);
+        ESX_CYCLES(&model);
                 }
     v_finish();
     return (v_sh->viol_count || rc) ? 1 : 0;
